@@ -186,6 +186,7 @@ type normCtx struct {
 	counter    int
 	synthArgs  map[string]interface{}
 	newVarDefs []*ast.VariableDefinition
+	shared     map[string]string
 }
 
 func (c *normCtx) nextName() string {
@@ -295,7 +296,17 @@ func (c *normCtx) tryExtract(value ast.Value, expected Input) (ast.Value, bool) 
 	if ok, _ := isValidInputValue(coerced, expected); !ok || !reflect.DeepEqual(coerceValue(expected, coerced), coerced) {
 		return value, false
 	}
+	// Equal literals of one type share one synthetic variable, so that
+	// fields that could be merged before can still be merged.
+	shareKey := fmt.Sprint(expected) + "\x00" + fmt.Sprint(printer.Print(value))
+	if name, ok := c.shared[shareKey]; ok {
+		return ast.NewVariable(&ast.Variable{Name: ast.NewName(&ast.Name{Value: name})}), true
+	}
 	name := c.nextName()
+	if c.shared == nil {
+		c.shared = map[string]string{}
+	}
+	c.shared[shareKey] = name
 	c.synthArgs[name] = coerced
 	c.newVarDefs = append(c.newVarDefs, ast.NewVariableDefinition(&ast.VariableDefinition{
 		Variable: ast.NewVariable(&ast.Variable{Name: ast.NewName(&ast.Name{Value: name})}),
